@@ -32,7 +32,7 @@ def register_all(reg):
         "Values whose treatment the property leaves open (bool, ' 7 ', 2.5 or '1.5' for an int, bytes) are only type-checked when accepted; duplicate name:value entries are outside the alphabet. " + E2_NOTE, "DESIGN.md 3 C28")
 
     reg("C01", "netx", "model_checking", "explicit-state search of the real DPOP computations over a virtual FIFO network (all start orders and delivery interleavings, state caching) x bounded-exhaustive instance family",
-        "For every DCOP of the small-scope family the real pseudo-tree is built and every reachable state of the real DPOP computations is visited; every maximal path must end with all computations finished on a brute-force-optimal, complete, in-domain assignment.",
+        "For every DCOP of the small-scope family the real pseudo-tree is built and every reachable state of the real DPOP computations is visited (plus K4 / K4-minus-an-edge with every constraint declaration order under two canonical schedules); every maximal path must end with all computations finished on a brute-force-optimal, complete, in-domain assignment.",
         NETX_NOTE, "DESIGN.md 3 C01")
 
     reg("C13", "seqx", "exploration", "bounded-exhaustive DCOP/assignment enumeration vs a reference accounting model",
@@ -91,7 +91,7 @@ def register_all(reg):
         THRX_NOTE + " Line-level points only inside the traced messaging functions.", "DESIGN.md 3 C18")
 
     reg("C27", "thrx", "fault_enumeration", "fault enumeration (every removed-agent subset, and two successive removal events) on the real threaded runtime under a cooperative scheduler, with single schedule / random-answer deviations in the repair window",
-        "For every small resilient deployment and every subset of <=k removed agents (k=1 deployments: also every ordered pair of successive single removals; quick: a1 first) the real replication -> removal event(s) -> repair pipeline is executed under the fair default schedule (deep cases: plus every single schedule deviation and every single random-answer deviation inside the repair window); one virtual second after the orchestrator reports the last repair, directory and agents must agree that every computation runs on exactly one surviving agent that held its replica.",
+        "For every small resilient deployment and every subset of <=k removed agents (k=1 deployments: also every ordered pair of successive single removals; quick: a1 first) the real replication -> removal event(s) -> repair pipeline is executed under the fair default schedule (deep cases: plus every single schedule deviation and every single random-answer deviation inside the repair window); one virtual second after the orchestrator reports the last repair, directory and agents must agree that every computation is hosted by exactly one surviving agent that held its replica, and has been started there.",
         THRX_NOTE + " At most two removal events per run, each within k; ample capacities; A-DSA (thorough also MGM) as non-terminating algorithm.", "DESIGN.md 3 C27")
 
     reg("C02", "netx", "model_checking", "explicit-state search of the real SyncBB computations over a virtual FIFO network (all start orders and delivery interleavings, state caching) x bounded-exhaustive instance family",
@@ -115,7 +115,7 @@ def register_all(reg):
         NETX_NOTE + " Handler exceptions end a path and are listed in the evidence notes (they are other properties' subject).", "DESIGN.md 3 C10")
 
     reg("C20", "netx", "model_checking", "explicit-state search over operation sequences interleaved with all delivery orders on the real Directory / Discovery objects (virtual FIFO network, state caching)",
-        "Every sequence of <=5 (thorough up to 7) discovery operations of 2 (3) agents on 1-2 computations, interleaved with every delivery order of the discovery messages, is executed on the real Directory, DirectoryComputation, Discovery and DiscoveryComputation objects; at every quiescent state each agent's view of every item it is still subscribed to must equal the directory's and its callback events must fold to that view.",
+        "Every sequence of <=5 (thorough up to 7) discovery operations of 2 (3) agents on 1-2 computations, interleaved with every delivery order of the discovery messages, is executed on the real Directory, DirectoryComputation, Discovery and DiscoveryComputation objects; (incl. a second callback on a subscription and the removal of one callback only) at every quiescent state each agent's view of every item it is still subscribed to must equal the directory's and its callback events must fold to that view.",
         NETX_NOTE + " A new host registers a computation only once the former host's messages reached the directory (no version numbers in the protocol) and an agent publishes a replica only of a computation whose current host it knows; illegal calls are not in the alphabet.", "DESIGN.md 3 C20")
     reg("C25", "netx", "model_checking", "explicit-state search of the real UCSReplication computations with real Discovery/Directory over a virtual FIFO network (all interleavings for small deployments, canonical schedules beyond; state caching)",
         "For each small deployment (3-4 agents, 1-2 computations each, ample/tight capacities, integer and decimal routes / hosting costs, k=1..3) every agent's replicate(k) and all replication / discovery messages are explored in one process sharing class-level state; on every state the acceptance of a replica is checked against the capacity rule computed from the agent's own replica table, at quiescence termination, distinct non-owner hosts <= k, directory records and real holders are checked; the state graph is kept and every state from which no end state is reachable is reported (livelock); departure runs (one agent leaves at any moment after the first replicate(k), all interleavings) check that the survivors still report done and end with live, distinct, recorded, real replica hosts.",
